@@ -15,7 +15,7 @@ func VGStack() (*Stack[int], []int) {
 
 func VHStackStep() {
 	s, pre := VGStack()
-	containers.VLinStep(containers.VLin{C: s, Push: s.Push, Pop: s.Pop, Peek: s.Peek, LIFO: true,
+	containers.VLinStep(containers.VLin{Name: "LinkedListStack", C: s, Push: s.Push, Pop: s.Pop, Peek: s.Peek, LIFO: true,
 		Inv: func() { v.Assert(s.list != nil, "inv-list"); singlylinkedlist.VInv(s.list) }}, pre)
 }
 
